@@ -115,6 +115,9 @@ def register(S):
                    # a before_closed hook is configured (transport open at entry): whatever the hook or the fetch of the root does -
                    # returns, raises, kills the transport - the side ends closed and clean, the disconnect hook ran exactly once
                    "with_hook": dict(init=QUIET,
+                                     # (the hook call written through a local - `hook = config.get(...); hook(root)` - is one call of
+                                     # an unknown callable instead of the abstracted call: allowed, once)
+                                     effects={"normal": (0, 1), "raise": (0, 1)},
                                      requires=CFG_ANY_HOOK + [HOOK_SET, "not self._closed", "not isnone(self._local_root)",
                                                               SOCK + " is not ClosedFile", "not %s.failed" % SOCK],
                                      ensures={"send_lock_free": ("not self._sendlock.held", P11), "closed_and_clean": (CLEAN, P11),
